@@ -170,6 +170,152 @@ func runC17(p *core.Prog, r *core.Report) {
 	c12R6(p, r, "C17.R6")
 	c17R7(p, r)
 	c17R8(p, r)
+	c17R9(p, r)
+}
+
+// c17R9: a response holds its host's throttle slot until it is closed. A function of the registry
+// scheme that sends another request to the registry while its own response is still open waits for a
+// slot it holds itself: with one slot per host it never gets it, with few it deadlocks under load.
+func c17R9(p *core.Prog, r *core.Report) {
+	const rule = "C17.R9"
+	r.Rule(rule, "no nested request under an open response: in scheme/reg, from a successful reghttp Do no call from which another Do is reachable can be reached without passing the Close of that response (a deferred Close keeps the slot until the function returns)", 5)
+	isDo := func(f *types.Func) bool { return core.IsModMethod(f, "internal/reghttp", "Client", "Do") }
+	// functions of the module from which a request is reachable
+	sends := map[*ssa.Function]bool{}
+	for _, fn := range p.ModFuncs {
+		if len(fn.Blocks) == 0 {
+			continue
+		}
+		if hits, _ := p.Reachable(fn, core.ReachQuery{IsSink: func(g *ssa.Function) bool {
+			return g.Object() != nil && isDo(funcObj(g))
+		}}); len(hits) > 0 {
+			sends[fn] = true
+		}
+	}
+	n := 0
+	for _, fn := range pkgFuncs(p, "scheme/reg") {
+		lab := labeler{}
+		for _, c := range core.CallsTo(fn, isDo) {
+			do, ok := c.(*ssa.Call)
+			if !ok {
+				continue
+			}
+			n++
+			label := lab.next("response of Do")
+			// the response value and its Close calls (not deferred)
+			isClose := func(in ssa.Instruction) bool {
+				cc, ok := in.(*ssa.Call)
+				if !ok {
+					return false
+				}
+				cal := core.Callee(cc)
+				if cal == nil || cal.Name() != "Close" || !core.IsModNamed(core.CallArg(cc, 0).Type(), "internal/reghttp", "Resp") {
+					return false
+				}
+				for _, oc := range originCalls(core.CallArg(cc, 0)) {
+					if oc == do {
+						return true
+					}
+				}
+				return false
+			}
+			bad := ""
+			// on the edge on which the response is nil nothing is held
+			respNil := func(from, to *ssa.BasicBlock) bool {
+				ifi, ok := core.LastInstr(from).(*ssa.If)
+				if !ok {
+					return false
+				}
+				cnd, pol := core.StripNot(ifi.Cond, true)
+				bo, ok := cnd.(*ssa.BinOp)
+				if !ok || (bo.Op != token.EQL && bo.Op != token.NEQ) {
+					return false
+				}
+				var x ssa.Value
+				switch {
+				case core.IsNilConst(bo.Y):
+					x = bo.X
+				case core.IsNilConst(bo.X):
+					x = bo.Y
+				default:
+					return false
+				}
+				if !core.IsModNamed(x.Type(), "internal/reghttp", "Resp") {
+					return false
+				}
+				isResp := false
+				for _, oc := range originCalls(x) {
+					isResp = isResp || oc == do
+				}
+				if !isResp {
+					return false
+				}
+				nilSucc := from.Succs[0]
+				if (bo.Op == token.EQL) != pol {
+					nilSucc = from.Succs[1]
+				}
+				return to == nilSucc
+			}
+			for _, e := range nilEdgesOf(fn, do) {
+				for in := range (core.Reach{Stop: isClose, StopEdge: respNil}).FromEdge(e[0], e[1]) {
+					cc, ok := in.(ssa.CallInstruction)
+					if !ok || in == ssa.Instruction(do) {
+						continue
+					}
+					if _, isDefer := in.(*ssa.Defer); isDefer {
+						continue
+					}
+					g := core.CalleeFn(cc)
+					if g == nil || !p.InModule(g) {
+						continue
+					}
+					if sends[g] || isDo(core.Callee(cc)) {
+						bad = g.Name() + " at " + p.Pos(in.Pos())
+					}
+				}
+			}
+			r.Check(bad == "", rule, p.FuncName(fn), label, p.Pos(do.Pos()), "while the response of this request is still open (its throttle slot is held) the function calls "+bad+", which sends another request to the registry: with one request slot per host the call waits for the slot its caller holds")
+		}
+	}
+	if n == 0 {
+		r.MissingAnchor(rule, "reghttp Do calls in scheme/reg")
+	}
+}
+
+func funcObj(g *ssa.Function) *types.Func {
+	f, _ := g.Object().(*types.Func)
+	return f
+}
+
+// nilEdgesOf returns the CFG edges on which the error result of call w is known nil.
+func nilEdgesOf(fn *ssa.Function, w *ssa.Call) [][2]*ssa.BasicBlock {
+	var out [][2]*ssa.BasicBlock
+	for _, b := range fn.Blocks {
+		ifi, ok := core.LastInstr(b).(*ssa.If)
+		if !ok {
+			continue
+		}
+		c, pol := core.StripNot(ifi.Cond, true)
+		x, neq, ok := errCmpNil(c)
+		if !ok {
+			continue
+		}
+		match := false
+		for _, oc := range originCalls(x) {
+			if oc == w {
+				match = true
+			}
+		}
+		if !match {
+			continue
+		}
+		if neq == pol {
+			out = append(out, [2]*ssa.BasicBlock{b, b.Succs[1]})
+		} else {
+			out = append(out, [2]*ssa.BasicBlock{b, b.Succs[0]})
+		}
+	}
+	return out
 }
 
 func c17R1(p *core.Prog, r *core.Report, pi *pqInfo) {
